@@ -237,7 +237,8 @@ def explore_state(job):
     last = [x if x == y else 0 for x, y in zip(tA, tB)]
     rec = {"ev": "run", "s": _sj(s), "t": {"A": tA, "B": tB, "tr": tr, "E": tE, "last": last},
            "exit": p.returncode, "nplan": nplan, "nconf": nconf, "alien": al1 + al2 + al3,
-           "swap_ok": True, "mtime_ok": True, "stderr": p.stderr.decode("utf8", "replace")[-300:] if p.returncode not in (0, 1) else ""}
+           "swap_ok": True, "mtime_ok": True, "dry_unchanged": True,
+           "stderr": p.stderr.decode("utf8", "replace")[-300:] if p.returncode not in (0, 1) else ""}
     if flags.get("alt"):
         # same abstract state, mtimes re-drawn: must give the same projection
         _materialise(s, blob, "AB", rng)
@@ -385,6 +386,10 @@ def fault_state(job):
         os.unlink(path)
         open(path + ".bak", "wb").write(zlib.decompress(param).replace(b"@PAIR@", _W["pair"]["AB"].encode()))
         param = 0
+    # a dry run on the damaged recorded state must leave it exactly as damaged as it was (C15)
+    before = _snapshot_bytes()
+    _run("AB", dry=True)
+    dry_unchanged = before == _snapshot_bytes()
     p, nplan, nconf = _run("AB")
     tA, al1 = _project_tree(_W["A"])
     tB, al2 = _project_tree(_W["B"])
@@ -396,7 +401,7 @@ def fault_state(job):
            "s": {"A": list(A), "B": list(B), "tr": False, "E": empty, "last": list(last)},
            "t": {"A": tA, "B": tB, "tr": tr, "E": tE, "last": [x if x == y else 0 for x, y in zip(tA, tB)]},
            "exit": p.returncode, "nplan": nplan, "nconf": nconf, "alien": al1 + al2 + al3, "swap_ok": True, "mtime_ok": True,
-           "stderr": ""}
+           "dry_unchanged": dry_unchanged, "stderr": ""}
     return rec
 
 
